@@ -21,7 +21,7 @@ def md5(b):
 
 def gen_kind_cases():
     out = []
-    for direction in ("file2dir", "dir2file"):
+    for direction in ("file2dir", "dir2file", "dir2empty"):
         for cls in ("local", "base"):
             for ty in ("copy", "hardlink", "symlink"):
                 for uncached in (True, False):
@@ -77,6 +77,15 @@ def run_kind_case(ctx, case):
         with open(path, "wb") as f:
             f.write(mine)
         obj = tree({"a": A, "sub/c": B}, case["dir_object_cached"])
+    elif case["kind_change"] == "dir2empty":
+        # the target is the EMPTY directory (oid d751713988987e9331980363e24189ce.dir): every entry and ROOT are deleted
+        os.makedirs(os.path.join(path, "sub"))
+        old = {"x": A, "sub/y": mine, "z": A}
+        for rel, b in old.items():
+            with open(os.path.join(path, *rel.split("/")), "wb") as f:
+                f.write(b)
+        tree(old, case["dir_object_cached"])
+        obj = tree({}, False)
     else:
         os.makedirs(os.path.join(path, "sub"))
         old = {"x": A, "sub/y": mine}
@@ -110,13 +119,17 @@ def run_kind_case(ctx, case):
 def run_kinds(ctx, n):
     cases = gen_kind_cases()
     fixed = [c for c in cases if c["uncached"] and c["dir_object_cached"] and c["prompt"] == "none" and not c["relink"]
-             and (c["cls"], c["types"][0]) in (("local", "copy"), ("base", "symlink"))]
+             and (c["cls"], c["types"][0]) in (("local", "copy"), ("base", "symlink"))]   # 2 per direction
     rest = [c for c in cases if c not in fixed]
     chosen = fixed + (rest if n >= len(rest) else ctx.rng.sample(rest, n))
     for case in chosen:
         problems, out = run_kind_case(ctx, case)
         ctx.case(case, True)
         ctx.count("kind-change:" + case["kind_change"] + ":" + out.split(" ")[0])
+        dd = ctx.extra.setdefault("input_dimensions", {})
+        for d in ("ws:" + {"file2dir": "file-where-directory-wanted", "dir2file": "directory-where-file-wanted",
+                           "dir2empty": "target-is-the-empty-directory"}[case["kind_change"]],):
+            dd[d] = dd.get(d, 0) + 1
         for sig, what in problems:
             ctx.oracle_fail(sig, what, case)
     ctx.obligation("oracle:kind-change-no-loss",
